@@ -207,6 +207,8 @@ def run(chk):
            "no is_regular guard or calendar path for the target: a DAILY target is grouped by the constant 365 // f days per period"
            if not guarded else "target regularity is tested before the constant-factor methods", m.loc(d))
     chk.guard(rule_r7, chk)
+    from .. import unused as _unused
+    chk.guard(_unused.apply, chk, "C12-R91")
     from .. import args as _args
     chk.guard(_args.apply, chk, "C12-R90", {'series'}, 1)
     chk.assumptions = [
